@@ -485,7 +485,7 @@ def _runit(rng, kind, n):
         a = sum(x * x for x in p)
         s = lam * rng.choice([1, -1])
         return [s * (1 + a)] + [s * 2 * x for x in p]
-    if kind == "polygon":
+    if kind in ("polygon", "ppolygon"):
         return [[F(1)] + Q.rball(rng, n, F(9, 10), 8) for _ in range(3)]
     e0 = [F(1)] + [F(0)] * n
     c, s_ = rng.choice(PYTH)
@@ -517,13 +517,13 @@ def _rcomp(rng, kind, shape, n):
 
 
 CORR_OPS = ["copy", "apply", "reshape", "flatten", "index", "setitem", "stack", "combine", "astype"]
-CORR_Q = {"point": ["hyperboloid", "origin_to", "coords"], "polygon": ["coords"], "segment": ["circle_parameters", "coords"],
+CORR_Q = {"point": ["hyperboloid", "origin_to", "coords"], "polygon": ["coords"], "ppolygon": ["coords"], "segment": ["circle_parameters", "coords"],
           "tangent": ["normalized", "tangent_origin_to", "coords"]}
 
 
 def gen_corr(rng, n):
     for c in range(n):
-        kind = ["polygon", "tangent", "segment", "point"][c % 4]
+        kind = ["polygon", "tangent", "segment", "point", "ppolygon"][c % 5]
         dim = 2
         shape = rng.choice(HSHAPES)
         ops = []
@@ -566,7 +566,8 @@ def gen_corr(rng, n):
         yield {"kind": kind, "n": dim, "proj": _rcomp(rng, kind, shape, dim), "ops": ops}
 
 
-_CLS = {"polygon": H.Polygon, "tangent": H.TangentVector, "segment": H.Segment, "point": H.Point}
+_CLS = {"polygon": H.Polygon, "tangent": H.TangentVector, "segment": H.Segment, "point": H.Point, "ppolygon": P.Polygon}
+_LEANKIND = {"ppolygon": "polygon"}
 
 
 def _state(X):
@@ -589,7 +590,7 @@ def run_corr(inp):
             elif op == "flatten":
                 X = X.flatten_to_unit()
             elif op == "apply":
-                X = H.Isometry(N.dec(s["A"])) @ X
+                X = (P.Transformation if inp["kind"] == "ppolygon" else H.Isometry)(N.dec(s["A"])) @ X
             elif op == "reshape":
                 X = X.reshape(tuple(s["s"]))
             elif op == "index":
@@ -603,7 +604,10 @@ def run_corr(inp):
             elif op == "q":
                 nm = s["name"]
                 if nm == "coords":
-                    X.coords("projective" if inp["kind"] == "tangent" else "klein")
+                    if inp["kind"] == "ppolygon":
+                        X.affine_coords(chart_index=0)
+                    else:
+                        X.coords("projective" if inp["kind"] == "tangent" else "klein")
                 elif nm == "hyperboloid":
                     X.coords("hyperboloid")
                 elif nm == "origin_to":
@@ -619,7 +623,7 @@ def run_corr(inp):
 
 
 def lean_corr(inp, obs):
-    return [{"op": "c11.run", "kind": inp["kind"], "proj": inp["proj"], "ops": inp["ops"]}]
+    return [{"op": "c11.run", "kind": _LEANKIND.get(inp["kind"], inp["kind"]), "proj": inp["proj"], "ops": inp["ops"]}]
 
 
 def judge_corr(inp, obs, lr):
@@ -658,8 +662,8 @@ def judge_corr(inp, obs, lr):
 def clauses():
     return [
         Clause("history_corr", "corr", gen_corr, run_corr, judge_corr, lean=lean_corr, site="projective.ProjectiveObject operations + in-place queries",
-               budget={"quick": 160, "thorough": 4000},
-               what="exact-rational histories (<= 6 operations interleaved with the in-place queries) on polygons, tangent vectors, segments and points of shapes (), (2,), (2,3): "
+               budget={"quick": 200, "thorough": 4000},
+               what="exact-rational histories (<= 6 operations interleaved with the in-place queries) on polygons (hyperbolic and projective class), tangent vectors, segments and points of shapes (), (2,), (2,3): "
                     "after every step composite shape, proj_data and aux_data of the implementation vs the Lean state machine Obj.step / Obj.afterQuery executed over Q "
                     "(data chosen so that every square root the library takes is rational)"),
         Clause("history_oracle", "oracle", gen_hist, run_hist, judge_hist, site="projective.ProjectiveObject (set/copy/apply/reshape/flatten/__getitem__/__setitem__/stack/combine/astype) + queries",
